@@ -810,7 +810,7 @@ TRANSPARENT = [
     "Option::expect", "Option::cloned", "Option::copied", "hint::must_use", "Box::new", "Arc::new", "Arc::clone",
     "ToString::to_string", "String::as_str", "String::as_bytes", "str::as_bytes", "Vec::as_slice",
     "IntoIterator::into_iter", "Iterator::enumerate", "Iterator::cloned", "Iterator::copied", "slice::iter",
-    "Vec::iter", "Try::branch", "str::to_owned", "String::from", "str::to_string", "Iterator::rev",
+    "Vec::iter", "Try::branch", "str::to_owned", "String::from", "str::to_string",
 ]
 
 
